@@ -215,8 +215,9 @@ class BinningDefinition(object):
             True if any data value is outside the binning range.
             False otherwise.
         """
-        outofrange = np.any((data < self.lower_edge) |
-                            (data > self.upper_edge))
+        # NaN values are not within the range.
+        outofrange = np.any(~((data >= self.lower_edge) &
+                              (data <= self.upper_edge)))
         return outofrange
 
     def get_binwidth_from_value(self, value):
@@ -243,9 +244,10 @@ class BinningDefinition(object):
             The 1D ndarray with data outside the range of this binning
             definition.
         """
-        oor_mask = (
-            (data < self.lower_edge) |
-            (data > self.upper_edge)
+        # NaN values are not within the range.
+        oor_mask = ~(
+            (data >= self.lower_edge) &
+            (data <= self.upper_edge)
         )
         oor_data = data[oor_mask]
 
